@@ -187,7 +187,7 @@ async def _battery_run(case: dict[str, Any], vec: list[str], out: dict[str, Any]
         while res_rx._q:  # noqa: SLF001  (exactly one result per processed request)
             extra.append(repr(res_rx.consume())[:200])
         out["rounds"].append({"result": res, "calls": [dict(c) for c in api.calls], "request": req, "extra_results": extra,
-                              "power_at_call": case["power"],
+                              "power_at_call": case["power"], "t_done": asyncio.get_event_loop().time(),
                               "inv_bats": {**{i: sorted(bats) for bats, invs in groups for i in invs}, BY_INV: [BY_BAT]}})
         if k + 1 < n_req:
             await asyncio.sleep(0.2)
